@@ -8,7 +8,7 @@ assume ensures); library calls use the assumed models of pyvc.lib.
 import ast
 import z3
 
-from .core import (Arr, Ref, Obj, PyList, PyDict, View, Ctx, Hinted, Scoped, Unsupported, EngineError, is_sym, to_real,
+from .core import (Arr, Ref, Obj, PyList, PyDict, Ragged, View, Ctx, Hinted, Scoped, Unsupported, EngineError, is_sym, to_real,
                    to_int, as_term, conc_int, real_const, _unify, INT, REAL, BOOL)
 from . import source
 
@@ -105,9 +105,8 @@ class State:
                     self.tags[x.get_id()] = tag
 
     def assume_named(self, prefix, named):
-        for k, g in named:
-            g = g.goal if isinstance(g, (Hinted, Scoped)) else g
-            g = g.goal if isinstance(g, (Hinted, Scoped)) else g
+        for k, g in (named() if callable(named) else named):
+            g = g.closed() if isinstance(g, (Hinted, Scoped)) else g
             self.assume(g, tag='%s.%s' % (prefix, k))
 
 
@@ -160,10 +159,15 @@ class Exec:
             goal = goal.goal
         if isinstance(goal, Hinted):
             hyps = hyps + [d for d in goal.defs if d is not True]
+            base = hyps
+            lems = []
             for i, lem in enumerate(goal.lemmas):
                 lem = as_term(lem) if not is_sym(lem) else lem
                 self.obls.append(Obl('%s.hint%d' % (name, i), kind, hyps, lem, line, note))
                 hyps = hyps + [lem]
+                lems.append(lem)
+            if goal.final_uses is not None:
+                hyps = base + lems[len(lems) - goal.final_uses:]
             goal = goal.goal
         if goal is True:
             goal = z3.BoolVal(True)
@@ -179,8 +183,7 @@ class Exec:
             acc = st.fork()
             for k, g in goals.items():
                 self.oblige('%s.%s' % (kind, k), acc, g, node)
-                gg = g.goal if isinstance(g, (Hinted, Scoped)) else g
-                gg = gg.goal if isinstance(gg, (Hinted, Scoped)) else gg
+                gg = g.closed() if isinstance(g, (Hinted, Scoped)) else g
                 if gg is not True:
                     acc.assume(as_term(gg) if not is_sym(gg) else gg, tag='acc.%s' % k)
         elif isinstance(goals, (list, tuple)):
@@ -548,11 +551,15 @@ class Exec:
         lo_t, hi_t = to_int(lo), to_int(hi)
         entry = st
         v0 = self.unit._view0
-        # initiation
-        self.oblige_all('inv%d.init' % ordinal, entry, inv(self.c, View(self.c, entry.env, entry.heap), v0, lo_t), node)
         mod_names, mod_cells, mod_attrs = self.modified(node.body, entry, node)
         for tn in _target_names(node.target):
             mod_names.add(tn)
+        for cid in mod_cells:
+            cell = entry.heap.get(cid)
+            if isinstance(cell, PyList):
+                entry.heap[cid] = self.list_to_ragged(cell, entry)
+        # initiation (after lists that grow in the loop were given their symbolic representation)
+        self.oblige_all('inv%d.init' % ordinal, entry, inv(self.c, View(self.c, entry.env, entry.heap), v0, lo_t), node)
 
         def havoc(base):
             s = base.fork()
@@ -564,6 +571,12 @@ class Exec:
                 cell = s.heap.get(cid)
                 if isinstance(cell, Arr):
                     s.heap[cid] = self.c.fresh_array('h', cell.shape, cell.kind)
+                    s.ver[cid] = s.ver.get(cid, 0) + 1
+                elif isinstance(cell, Ragged):
+                    rl = z3.Function('rowlen!%d' % next(self.c._fresh), INT, INT)
+                    el = z3.Function('rag!%d' % next(self.c._fresh), INT, INT, REAL)
+                    s.heap[cid] = Ragged(self.c.fresh('nrows'), lambda i, rl=rl: rl(to_int(i)),
+                                         lambda i, j, el=el: el(to_int(i), to_int(j)))
                     s.ver[cid] = s.ver.get(cid, 0) + 1
                 elif isinstance(cell, PyList):
                     raise Unsupported('list mutated in an invariant loop')
@@ -578,7 +591,8 @@ class Exec:
         body_st = havoc(entry)
         k = self.c.fresh('k%d' % ordinal)
         body_st.assume(lo_t <= k, k < hi_t)
-        body_st.assume_named('inv%d' % ordinal, _named(inv(self.c, View(self.c, body_st.env, body_st.heap), v0, k)))
+        body_st.env['loop%d_index' % ordinal] = k
+        body_st.assume_named('inv%d' % ordinal, self.assumed_inv(inv, body_st, v0, k))
         self.assign(node.target, elem(k, body_st) if elem else k, body_st, node)
         outs = []
         for s2, kind, p in self.exec_block(node.body, body_st):
@@ -586,20 +600,27 @@ class Exec:
                 self.oblige_all('inv%d.preserve' % ordinal, s2,
                                 inv(self.c, View(self.c, s2.env, s2.heap), v0, k + 1), node)
             elif kind == 'break':
-                for n in list(s2.env):
-                    if n not in entry.env and n not in mod_names:
-                        pass
+                s2.env['loop%d_exit' % ordinal] = k          # ghost: iteration at which the loop was left
                 outs.append((s2, 'next', None))
             else:
                 outs.append((s2, kind, p))
         # exit
         exit_st = havoc(entry)
         kx = z3.If(hi_t > lo_t, hi_t, lo_t)
-        exit_st.assume_named('inv%d' % ordinal, _named(inv(self.c, View(self.c, exit_st.env, exit_st.heap), v0, kx)))
+        exit_st.assume_named('inv%d' % ordinal, self.assumed_inv(inv, exit_st, v0, kx))
         for tn in _target_names(node.target):
             exit_st.env.pop(tn, None)
+        exit_st.env['loop%d_exit' % ordinal] = kx
         outs.append((exit_st, 'next', None))
         return outs
+
+    def assumed_inv(self, inv, st, v0, k):
+        """the invariant as a hypothesis: ForallH clauses become real universal statements"""
+        self.c.assuming = True
+        try:
+            return _named(inv(self.c, View(self.c, st.env, st.heap), v0, k))
+        finally:
+            self.c.assuming = False
 
     def _skip_nested(self, node):
         for n in ast.walk(node):
@@ -633,7 +654,7 @@ class Exec:
                         s.ver[cid] = s.ver.get(cid, 0) + 1
                 return s
             body_st = havoc(entry)
-            body_st.assume_named('inv%d' % ordinal, _named(inv(self.c, View(self.c, body_st.env, body_st.heap), v0, None)))
+            body_st.assume_named('inv%d' % ordinal, self.assumed_inv(inv, body_st, v0, None))
             exit_st = body_st.fork()
             cond = self.truth(self.eval(node.test, body_st), body_st)
             body_st.assume(cond)
@@ -704,6 +725,8 @@ class Exec:
                                     continue
                             names.add(tt.id)
                         elif isinstance(tt, ast.Subscript):
+                            if isinstance(tt.value, ast.Name) and tt.value.id not in st.env:
+                                continue          # array created inside the loop body: not loop-carried state
                             r = cell_of(tt.value)
                             if r is None:
                                 raise Unsupported('store into unresolvable base %s in loop' % ast.unparse(tt.value))
@@ -716,6 +739,9 @@ class Exec:
             elif isinstance(n, ast.For):
                 for tn in _target_names(n.target):
                     names.add(tn)
+            elif isinstance(n, ast.Call) and isinstance(n.func, ast.Attribute) and n.func.attr in ('append', 'extend') \
+                    and cell_of(n.func.value) is not None and isinstance(st.heap.get(cell_of(n.func.value).id), (PyList, Ragged)):
+                cells.add(cell_of(n.func.value).id)
             elif isinstance(n, ast.Call):
                 u, bound = self.resolve_call_static(n, st)
                 if u is not None:
@@ -854,11 +880,14 @@ class Exec:
                     raise EngineError('object of class %s has no attribute %s (line %d); declare it in the contract'
                                       % (cell.cls, attr, getattr(node, 'lineno', 0)))
                 if attr in ci.properties:
+                    u = self.registry.get('%s:%s.%s' % (ci.modname, ci.name, fn.name))
+                    if u is not None and u is not self.unit and attr not in self.unit.inline:
+                        return self.call_contract(u, [base], {}, st, node)
                     return self.inline_call(ci, fn, [base], {}, st, node)
                 return FuncV('method', (ci, fn), self_val=base)
             if isinstance(cell, Arr):
                 return self.arr_attr(base, cell, attr, st, node)
-            if isinstance(cell, PyList):
+            if isinstance(cell, (PyList, Ragged)):
                 return FuncV('listmeth', attr, self_val=base)
             if isinstance(cell, PyDict):
                 return FuncV('dictmeth', attr, self_val=base)
@@ -1203,8 +1232,10 @@ class Exec:
             or isinstance(a, float)
         if cb is not None and 0 <= cb <= 8:
             x = to_real(a) if isfloat else as_term(a)
-            r = z3.RealVal(1) if isfloat else z3.IntVal(1)
-            for _ in range(cb):
+            if cb == 0:
+                return z3.RealVal(1) if isfloat else z3.IntVal(1)
+            r = x
+            for _ in range(cb - 1):
                 r = r * x
             return r
         if cb is not None and -8 <= cb < 0:
@@ -1267,6 +1298,27 @@ class Exec:
         k = kind or ('real' if 'real' in (A.kind, B.kind) else A.kind)
         return st.alloc(self.c, Arr(tuple(shape), el, k))
 
+    def list_to_ragged(self, lst, st):
+        rows = []
+        for x in lst.items:
+            a = st.get(x) if isinstance(x, Ref) else None
+            if not isinstance(a, Arr) or a.ndim != 1:
+                raise Unsupported('list that grows in an invariant loop must hold 1-D arrays')
+            rows.append(a)
+
+        def rowlen(i, rows=rows):
+            r = z3.IntVal(0)
+            for k in range(len(rows) - 1, -1, -1):
+                r = z3.If(to_int(i) == k, to_int(rows[k].shape[0]), r)
+            return r
+
+        def elem(i, j, rows=rows):
+            r = z3.RealVal(0)
+            for k in range(len(rows) - 1, -1, -1):
+                r = z3.If(to_int(i) == k, to_real(rows[k].elem((j,))), r)
+            return r
+        return Ragged(len(rows), rowlen, elem)
+
     def list_to_arr(self, lst, st):
         items = lst.items
         if all(not isinstance(x, (Ref, tuple, str)) and x is not None for x in items):
@@ -1325,6 +1377,11 @@ class Exec:
                 if not -len(cell.items) <= i < len(cell.items):
                     raise _Raise(st, ExcV('IndexError', node.lineno))
                 return cell.items[i]
+            if isinstance(cell, Ragged):
+                i = self.eval(sl, st)
+                if 'index' in self.safety:
+                    self.oblige('safe.index', st, z3.And(to_int(i) >= 0, to_int(i) < to_int(cell.n)), node)
+                return st.alloc(self.c, Arr((cell.rowlen(i),), lambda ix, cell=cell, i=i: cell.elem(i, ix[0]), 'real'))
             if isinstance(cell, PyDict):
                 k = self.eval(sl, st)
                 if is_sym(k):
@@ -1407,12 +1464,12 @@ class Exec:
                     if step == -1 and lo is None and hi is None:
                         plan.append(('s', dim - 1, dim, -1))
                     elif step == 1:
-                        lo_t = self.clamp_bound(lo, dim, 0)
-                        hi_t = self.clamp_bound(hi, dim, dim)
+                        lo_t = self.clamp_bound(lo, dim, 0, st)
+                        hi_t = self.clamp_bound(hi, dim, dim, st)
                         n = _sub(hi_t, lo_t)
                         cn = conc_int(n)
                         if cn is None:
-                            n = self.c.Max(n, 0)
+                            n = z3.simplify(n) if self.implied(st, to_int(n) >= 0) else self.c.Max(n, 0)
                         elif cn < 0:
                             n = 0
                         plan.append(('s', lo_t, n, 1))
@@ -1421,7 +1478,9 @@ class Exec:
             d += 1
         return plan
 
-    def clamp_bound(self, b, dim, default):
+    def clamp_bound(self, b, dim, default, st=None):
+        """numpy slice bound semantics (negative wraps once, then clamps to [0, dim]).  When the path condition
+        already implies 0 <= b <= dim the bound is used as written (no ite terms)."""
         if b is None:
             return default
         cb = conc_int(b)
@@ -1430,16 +1489,32 @@ class Exec:
             if cb < 0:
                 if cd is not None:
                     return max(cd + cb, 0)
+                if st is not None and self.implied(st, to_int(dim) + cb >= 0):
+                    return to_int(dim) + cb
                 return self.c.Max(dim + cb, 0)
             if cd is not None:
                 return min(cb, cd)
             if cb == 0:
                 return 0
+            if st is not None and self.implied(st, to_int(dim) >= cb):
+                return cb
             return self.c.Min(cb, dim)
         b = to_int(b)
+        if st is not None and self.implied(st, z3.And(b >= 0, b <= to_int(dim))):
+            return b
         # numpy: negative wraps once, then clamps to [0, dim]
         w = z3.If(b < 0, b + to_int(dim), b)
         return z3.If(w < 0, z3.IntVal(0), z3.If(w > to_int(dim), to_int(dim), w))
+
+    def implied(self, st, cond, timeout=200):
+        """True only if the path condition definitely implies cond (used to simplify terms, never to decide)"""
+        s = z3.Solver()
+        s.set('timeout', timeout)
+        for a in st.pc:
+            if not z3.is_quantifier(a):
+                s.add(a)
+        s.add(z3.Not(cond))
+        return s.check() == z3.unsat
 
     def index_arr(self, ref, sl, st, node, pre=None):
         a = st.get(ref)
@@ -1760,7 +1835,15 @@ class Exec:
         try:
             f = self.eval_quiet(call.func, st)
         except (Unsupported, EngineError, KeyError, _Raise):
-            return None, {}
+            # callee not resolvable at loop entry (e.g. a method of an inner loop variable): conservatively every
+            # array passed by name may be written
+            class _U:
+                frame_attrs = []
+            u2 = _U()
+            names = [a for a in list(call.args) + [k.value for k in call.keywords] if isinstance(a, ast.Name)]
+            u2.frame = ['#%d' % i for i in range(len(names))]
+            u2.param_index = lambda n: int(n[1:])
+            return u2, {'#%d' % i: a for i, a in enumerate(names)}
         if not isinstance(f, FuncV):
             return None, {}
         u = None
